@@ -11,6 +11,10 @@ NOTE = ("claims are over the reals within the bounds stated in the evidence file
         "classes and term transformations of /verif/vf (validated each run against the real code on floats), stub contracts listed in the evidence")
 
 CHECKS = {
+    "C06": ("5 C06", "relational: run vs relabelled twin in one exploration.  Activity models for real (NRTL fully symbolic, UNIQUAC per built-in "
+                     "mixture; ln gamma compared as rational functions; UNIQUAC asymmetry is a characterised known finding); flux solver with the "
+                     "real loop (K = 1, thorough 2; iterates named, on-demand congruence); helpers, one-point curve, metrics and the two ideal "
+                     "process models (N = 2, thorough 3) over identity-keyed uninterpreted thermodynamics; separation factor / selectivity invert"),
     "C19": ("5 C19", "12 driving-force entry points executed with both permeate temperature and pressure symbolic and everything else symbolic "
                      "(N = 1 step / point; thorough also 2): every leaf raises a repository exception; 9 incomplete-specification classes "
                      "likewise; vacuity twins with valid specifications must return"),
